@@ -216,10 +216,10 @@ Definition chained (s : nat) : Prop :=
 
 Lemma run_loop_delta fuel size : forall s s' nc',
   run_loop fuel args size true (mk k d) (Z.of_nat s) (Z.of_nat s) = Some (s', nc') ->
-  (1 <= s)%nat -> chained s ->
-  exists n, s' = Z.of_nat n /\ nc' = Z.of_nat n /\ (s < n)%nat /\ chained (n - 1).
+  (1 <= s)%nat -> chained s -> Z.of_nat s < size ->
+  exists n, s' = Z.of_nat n /\ nc' = Z.of_nat n /\ (s < n)%nat /\ chained (n - 1) /\ Z.of_nat n <= size.
 Proof.
-  induction fuel as [|fuel IH]; intros s s' nc' Hrun Hs Hch; [discriminate|].
+  induction fuel as [|fuel IH]; intros s s' nc' Hrun Hs Hch Hsz; [discriminate|].
   cbn [run_loop] in Hrun.
   destruct (Hch (s - 1)%nat ltac:(lia)) as (a0 & _ & Ha & _). replace (S (s - 1)) with s in Ha by lia.
   rewrite skipz_nth, (incsize_skipn s _ Ha ltac:(now destruct k)) in Hrun.
@@ -240,8 +240,8 @@ Proof.
         rewrite <- Eargs in *.
         destruct (range_step_fits (mk k x) (mk k a) (mk k (wr k (a + d))) (mk k d)) as [[|]|] eqn:Ef;
           [| |discriminate].
-        -- apply IH in Hrun; [|lia|].
-           ++ destruct Hrun as (n & -> & -> & Hn & Hc). exists n. repeat split; try lia. exact Hc.
+        -- apply IH in Hrun; [|lia| |lia].
+           ++ destruct Hrun as (n & -> & -> & Hn & Hc & Hle). exists n. repeat split; try lia. exact Hc.
            ++ intros j Hj. destruct (Nat.eq_dec j s) as [->|Hne].
               ** exists a. repeat split; assumption.
               ** apply Hch. lia.
@@ -317,10 +317,10 @@ Definition const_run (a0 : av) (s : nat) : Prop :=
 Lemma run_loop_const fuel size a0 dl : forall s s' nc',
   exact a0 -> nth_error args 0 = Some a0 ->
   run_loop fuel args size false dl (Z.of_nat s) (Z.of_nat s) = Some (s', nc') ->
-  (1 <= s)%nat -> const_run a0 s ->
-  exists n, s' = Z.of_nat n /\ nc' = Z.of_nat n /\ (s < n)%nat /\ const_run a0 (n - 1).
+  (1 <= s)%nat -> const_run a0 s -> Z.of_nat s < size ->
+  exists n, s' = Z.of_nat n /\ nc' = Z.of_nat n /\ (s < n)%nat /\ const_run a0 (n - 1) /\ Z.of_nat n <= size.
 Proof.
-  induction fuel as [|fuel IH]; intros s s' nc' Hex H0 Hrun Hs Hch; [discriminate|].
+  induction fuel as [|fuel IH]; intros s s' nc' Hex H0 Hrun Hs Hch Hsz; [discriminate|].
   cbn [run_loop] in Hrun.
   rewrite skipz_nth, (incsize_skipn s a0 (Hch s (Nat.le_refl s)) ltac:(destruct a0; cbn in Hex |- *; tauto)) in Hrun.
   destruct (size <=? Z.of_nat s + 1) eqn:Esz.
@@ -336,7 +336,7 @@ Proof.
       * destruct (av_eq_single a0 z) as [[|]|] eqn:Eq; [| |discriminate].
         -- apply (eq_exact _ _ Hex (nth_inrv _ _ H0') (nth_inrv _ _ Ez)) in Eq. subst z.
            apply IH in Hrun; try assumption; try lia.
-           ++ destruct Hrun as (n & -> & -> & Hn & Hc). exists n. repeat split; try lia. exact Hc.
+           ++ destruct Hrun as (n & -> & -> & Hn & Hc & Hle). exists n. repeat split; try lia. exact Hc.
            ++ intros j Hj. destruct (Nat.eq_dec j (S s)) as [->|Hne]; [assumption|apply Hch; lia].
         -- inversion Hrun; subst. exists (S s). repeat split; try lia. now replace (S s - 1)%nat with s by lia.
       * inversion Hrun; subst. exists (S s). repeat split; try lia. now replace (S s - 1)%nat with s by lia.
@@ -418,10 +418,12 @@ Theorem range_expand_shape_sa o args size c kk :
     ((exists y, c = [VRep (Z.of_nat n) 0; hd VN args; VSpc y]) /\ firstn n args = repeat (hd VN args) n \/
      (exists k d x y, c = [VRep (Z.of_nat n) 1; mk k d; mk k x; VSpc y] /\ inr k d /\ hd VN args = mk k x /\ d <> 0 /\
         forall j, (j < n)%nat -> nth_error args j = Some (mk k (x + Z.of_nat j * d)) /\
-                                 inr k (x + Z.of_nat j * d) /\ inr k (Z.of_nat j * d))).
+                                 inr k (x + Z.of_nat j * d) /\ inr k (Z.of_nat j * d))) /\
+    Z.of_nat n <= size.
 Proof.
   intros Hsc Hin Hex Hlen Hc. unfold convert_to_range in Hc.
-  destruct ((size <? 5) || (hd_type args =? 45) || negb (compress o)); [discriminate|].
+  destruct (size <? 5) eqn:Esize5; [discriminate|]. apply Z.ltb_ge in Esize5. cbn [orb] in Hc.
+  destruct ((hd_type args =? 45) || negb (compress o)); [discriminate|].
   destruct (count_common (length args) (hd_type args) args 0 size 0 <? 5) eqn:Ecc; [discriminate|].
   destruct args as [|a0 rest] eqn:Ea; [discriminate|]. cbn [hd] in Hex.
   assert (Hs0 : scalar a0) by (apply exact_scalar; exact Hex).
@@ -447,8 +449,9 @@ Proof.
     { destruct (av_type a0 =? av_type a1); [|discriminate]. apply (eq_exact _ _ Hex); [eapply Forall_forall; [exact Hin|]; eapply nth_error_In; exact H0|eapply Forall_forall; [exact Hin|]; eapply nth_error_In; exact E1|assumption]. }
     subst a1.
     destruct (run_loop_const args Hsc Hin (length args) size a0 VN 1 skipped nc Hex H0 Er ltac:(lia))
-      as (n & -> & -> & Hn & Hcr).
+      as (n & -> & -> & Hn & Hcr & Hle).
     { intros j Hj. destruct j as [|[|j]]; [assumption|assumption|lia]. }
+    { lia. }
     destruct (Z.of_nat n <? 5) eqn:E5; [discriminate|]. inversion Hc; subst c kk. clear Hc.
     assert (Hnl0 : (n <= length args)%nat).
     { assert (Hsome : nth_error args (n - 1) <> None) by (rewrite (Hcr (n - 1)%nat) by lia; discriminate).
@@ -459,7 +462,7 @@ Proof.
       intros j Hj. apply Hcr. lia. }
     rewrite Ea. change (Z.to_nat 1) with 1%nat. cbn [firstn app hd]. rewrite <- Ea.
     rewrite expand_const by (try assumption; lia). rewrite Nat2Z.id.
-    split; [now rewrite Hrep|]. left. split; [eexists; reflexivity|exact Hrep].
+    split; [now rewrite Hrep|]. split; [|exact Hle]. left. split; [eexists; reflexivity|exact Hrep].
   - (* a run with a step *)
     cbn [negb andb] in Hc.
     destruct (range_convertible (hd_type args)) eqn:Erc; [|discriminate]. cbn [negb] in Hc.
@@ -482,9 +485,10 @@ Proof.
     destruct (run_loop (length args) args size true (mk k (wr k (y - x))) 1 1) as [[skipped nc]|] eqn:Er;
       [|discriminate].
     destruct (run_loop_delta args Hsc Hin k (wr k (y - x)) x H0 (length args) size 1 skipped nc Er ltac:(lia))
-      as (n & -> & -> & Hn & Hch).
+      as (n & -> & -> & Hn & Hch & Hle).
     { intros j Hj. assert (j = 0)%nat by lia. subst j. exists x. split; [assumption|].
       rewrite Hyx. split; [exact E1|exact Ef0]. }
+    { lia. }
     destruct (Z.of_nat n <? 5) eqn:E5; [discriminate|]. inversion Hc; subst c kk. clear Hc.
     (* the first two values differ, so the step is not 0 *)
     assert (Hd0 : wr k (y - x) <> 0).
@@ -501,6 +505,7 @@ Proof.
     split.
     { f_equal. symmetry. apply firstn_map_seq. intros j Hj.
       destruct (Hcl j ltac:(lia)) as (Hnj & Hrj & _). rewrite Hnj. f_equal. f_equal. symmetry. now apply wr_id. }
+    split; [|exact Hle].
     right. eexists _, _, _, _. split; [reflexivity|]. split; [apply wr_inr|]. split; [now rewrite Ea|].
     split; [exact Hd0|]. intros j Hj. apply Hcl. lia.
 Qed.
@@ -515,7 +520,10 @@ Theorem range_expand_shape o args size c kk :
         forall j, (j < n)%nat -> nth_error args j = Some (mk k (x + Z.of_nat j * d)) /\
                                  inr k (x + Z.of_nat j * d) /\ inr k (Z.of_nat j * d))).
 Proof.
-  intros Hsc. apply range_expand_shape_sa. eapply Forall_impl; [|exact Hsc]. exact scalar_sa.
+  intros Hsc Hin Hex Hlen Hc.
+  destruct (range_expand_shape_sa o args size c kk) as (n & A & B & C & D & _); try assumption.
+  - eapply Forall_impl; [|exact Hsc]. exact scalar_sa.
+  - exists n. auto.
 Qed.
 
 Theorem range_expand o args size c kk :
